@@ -2,7 +2,7 @@
 import numpy as _np
 import z3
 from .core import SB, Unsupported, cur, tobool
-from .values import SF, SI, it, np_max2, np_min2, fsqrt, ite, PINF, NINF
+from .values import SF, SI, it, np_max2, np_min2, py_max2, py_min2, fsqrt, ite, PINF, NINF
 from . import vecs
 
 
@@ -114,9 +114,10 @@ class NP:
         if isinstance(x, vecs.SV):
             return vecs.reduce_min(x, nanaware=False, **kw)
         if isinstance(x, (list, tuple)) and _anysym(x):
+            f2 = py_min2 if all(isinstance(e, (SI, int)) and not isinstance(e, bool) for e in x) else np_min2
             acc = x[0]
             for e in x[1:]:
-                acc = np_min2(acc, e)
+                acc = f2(acc, e)
             if "initial" in kw:
                 acc = np_min2(acc, kw["initial"])
             return acc
@@ -126,9 +127,10 @@ class NP:
         if isinstance(x, vecs.SV):
             return vecs.reduce_max(x, nanaware=False, **kw)
         if isinstance(x, (list, tuple)) and _anysym(x):
+            f2 = py_max2 if all(isinstance(e, (SI, int)) and not isinstance(e, bool) for e in x) else np_max2
             acc = x[0]
             for e in x[1:]:
-                acc = np_max2(acc, e)
+                acc = f2(acc, e)
             if "initial" in kw:
                 acc = np_max2(acc, kw["initial"])
             return acc
